@@ -43,27 +43,65 @@ def check(ctx):
     chain = sep = None
     why = "result is not array([SEP.join([escape(name) for name in row]) for row in columns.astype(str)])"
     rows_iter = None
-    if ret is not None and ret.op == "call" and ret.args[0].op == "global" and ret.args[0].args[0] in ("numpy.array", "numpy.asarray") \
-            and ret.args[1] and ret.args[1][0].op == "comp":
-        outer = ret.args[1][0]
-        body, gens = outer.args[1], outer.args[2]
-        if len(gens) == 1 and not gens[0][1]:
+    row = key_t = None
+    violated = None
+    core = ret
+    while core is not None and core.op == "assume":
+        core = core.args[1]
+    if core is not None and core.op == "ite" and contains(core.args[0], lambda s: s is fc):
+        violated = ("the encoding is chosen by a test on the whole table (" + show(core.args[0], maxdepth=3)[:80] + "): the same value "
+                    "tuple can be keyed differently in two calls (fit vs. predict), so rows no longer group by tuple equality")
+    inner_arr = None
+    if violated is None and core is not None and core.op == "call" and core.args[0].op == "global" \
+            and core.args[0].args[0] in ("numpy.array", "numpy.asarray") and core.args[1]:
+        inner_arr = core.args[1][0]
+    elif violated is None and core is not None and core.op in ("comp", "loopout"):
+        inner_arr = core
+    if inner_arr is not None and inner_arr.op == "comp":
+        body, gens = inner_arr.args[1], inner_arr.args[2]
+        if len(gens) == 1:
+            if gens[0][1]:
+                violated = "rows are filtered while merging (the result no longer has one key per row)"
             rows_iter = gens[0][0]
             row = mk("elem", rows_iter)
-            if body.op == "call" and body.args[0].op == "attr" and body.args[0].args[1] == "join" and is_str_const(body.args[0].args[0]) \
-                    and len(body.args[1]) == 1 and body.args[1][0].op == "comp":
-                sep = const_value(body.args[0].args[0])
-                inner = body.args[1][0]
-                ibody, igens = inner.args[1], inner.args[2]
-                if len(igens) == 1 and igens[0][0] is row and not igens[0][1]:
+            key_t = body
+    elif inner_arr is not None and inner_arr.op == "loopout" and inner_arr.args[2].op == "list" and not inner_arr.args[2].args[0]:
+        # explicit loop:  out = []; for row in rows: out.append(key(row))
+        vals = inner_arr.args[3]
+        if len(vals) == 1 and vals[0].op == "listappend" and vals[0].args[0].op == "loopvar":
+            key_t = vals[0].args[1]
+            lk = inner_arr.args[1]
+            if lk.op == "elem":
+                row = lk
+                rows_iter = lk.args[0]
+            if contains(key_t, lambda s_: s_.op in ("loopvar", "loopout") and s_ is not vals[0].args[0]):
+                violated = ("the key of a row depends on state carried over from earlier rows (a cache / accumulator): two different "
+                            "value tuples can receive the same key")
+    if violated is None and key_t is not None and row is not None:
+        body = key_t
+        if body.op == "call" and body.args[0].op == "attr" and body.args[0].args[1] == "join" and is_str_const(body.args[0].args[0]) \
+                and len(body.args[1]) == 1 and body.args[1][0].op == "comp":
+            sep = const_value(body.args[0].args[0])
+            inner = body.args[1][0]
+            ibody, igens = inner.args[1], inner.args[2]
+            if len(igens) == 1 and igens[0][0] is row:
+                if igens[0][1]:
+                    violated = ("components are filtered out before joining (" + show(igens[0][1][0], maxdepth=2)[:40] + "): the position of "
+                                "a value in the tuple is lost, so different tuples merge into the same key")
+                else:
                     name = mk("elem", row)
                     chain = _replace_chain(ibody, name)
                     ok_shape = chain is not None
-    if not ok_shape:
+    if violated is not None:
+        ctx.ob("R13.1", fq, None, False, violated, construct="merge scheme")
+    elif not ok_shape:
         ctx.ob("R13.1", fq, None, None, why + f" (found {show(ret, maxdepth=5)[:200]})", construct="merge scheme")
-        return
+    if violated is not None or not ok_shape:
+        chain = None
     # R13.1
-    if any(len(p) != 1 for p, _ in chain) or len(sep) != 1:
+    if chain is None:
+        pass
+    elif any(len(p) != 1 for p, _ in chain) or len(sep) != 1:
         ctx.ob("R13.1", fq, None, None, "patterns / separator longer than one character are not modelled", construct="merge scheme")
     else:
         alphabet = sorted({c for p, rep in chain for c in p + rep} | set(sep) | {GENERIC})
@@ -79,8 +117,9 @@ def check(ctx):
     # R13.2
     want = mk("call", mk("attr", fc, "astype"), (glob("builtins.str"),), ())
     ok = rows_iter is want
-    ctx.ob("R13.2", fq, None, ok, "rows are stringified with astype(str) before merging" if ok else
-           f"rows iterate over {show(rows_iter, maxdepth=3)[:80]}, not the stringified block", construct="astype(str)")
+    if rows_iter is not None:
+        ctx.ob("R13.2", fq, None, ok, "rows are stringified with astype(str) before merging" if ok else
+               f"rows iterate over {show(rows_iter, maxdepth=3)[:80]}, not the stringified block", construct="astype(str)")
     # R13.3: validator reaches the merge under the multi-column test, for both features
     Av = Analysis(ctx, no_inline=[fq])
     val = M_IV + ":_validate_and_reformat_input"
